@@ -18,7 +18,11 @@ SmallEnvelope ==
 SugarVals == {AsTerm(Stmt(kd, a, b)) : kd \in Derived, a \in {W("a"), SE1(IV("x"))}, b \in {W("b")}}
              \cup {AsTerm([k |-> "ImageExtension", c |-> <<W("a"), PH, W("b"), PH>>]), AsTerm([k |-> "IntervalRaw", raw |-> "007"]),
                    AsSentence(Sentence(Stmt("EquivalenceRetrospective", W("a"), QV("z")), "Question", [k |-> "Past"], <<>>))}
-Values == {AsTerm(t) : t \in AtomsU0 \cup Reps1 \cup ImgWithLatePH \cup (IF TIER = "thorough" THEN U1 ELSE Sample(U1, 6, SEED))} \cup SugarVals
+\* every atom of the pool next to every kind of neighbouring token (copula on either side, separator, brackets)
+AtomContexts == UNION {{[k |-> "Inheritance", a |-> x, b |-> W("b")], [k |-> "Inheritance", a |-> W("b"), b |-> x], [k |-> "Similarity", p |-> {x, W("b")}],
+                        [k |-> "Product", q |-> <<x, W("b")>>], [k |-> "Product", q |-> <<W("b"), x>>], [k |-> "SetIntension", s |-> {x}],
+                        [k |-> "ImplicationRetrospective", a |-> x, b |-> x]} : x \in AtomsU0 \ {PH}}
+Values == {AsTerm(t) : t \in AtomContexts} \cup {AsTerm(t) : t \in AtomsU0 \cup Reps1 \cup ImgWithLatePH \cup (IF TIER = "thorough" THEN U1 ELSE Sample(U1, 6, SEED))} \cup SugarVals
           \cup (IF TIER = "thorough" THEN EnvelopeQuickSet(0) ELSE SmallEnvelope)
 
 Variants(v) ==
